@@ -31,6 +31,9 @@ where
     /// and a given window length
     #[inline]
     pub fn new(view: V, window_len: usize) -> Self {
+        // The smoothing stencil reads six consecutive values of the window;
+        // shorter windows index out of bounds or leave part of it unset.
+        assert!(window_len >= 6, "window_len must be >= 6");
         CyberCycle {
             view,
             window_len,
